@@ -48,6 +48,9 @@ META = {
                    'correspondence (sampling); CPython reference counting / weakref / pickle / SQLite are modelled, not verified.'),
     'rule': ('case = (doCache, cullFrequency, cullFraction, op history); guarded stream (no detaching expire, no unpickle of a deleted row; plus a stream with falsy row objects: '
              'the oracle must hold) and free stream (every op at any time: oracle failures are shrunk and keyed by their minimal shape); '
+             'further guarded streams: id-forms (explicit ids / get arguments in the non-canonical type: text for an int key, int for a '
+             'str key; a class with idType=str), explicit-connection (classes bound to connection A, every access with connection=B), '
+             'inheritance (oracle only: V/Car/Truck family + ForeignKey to the root, default and explicit connection); '
              'distinct = distinct (cfg, history); non-trivial = the history has at least one cache hit on a held object, cull or gc'),
     'trusted': ['the reference semantics of the Python fragment cache.py is written in (lean/SqlObjVerif/Model/PyCache.lean: dicts as '
                 'insertion-ordered association lists, weakref liveness, lock as a held flag, try/except KeyError, try/finally, '
@@ -60,6 +63,10 @@ META = {
                  'pickle (a snapshot (class, id, has-values) ; values are irrelevant for identity)',
                  'the database: per class the set of ids that exist; what a query returns is an input of the op '
                  '(select / join id lists, alternate-id hit) filtered by existence',
+                 'sqlmeta.idType coercion of an id argument is the canonicalisation map of the op (the model sees the canonical id); '
+                 'the oracle checks the type of instance.id and, on an explicit connection, instance._connection',
+                 'the inheritance layer (InheritableSQLObject.get child/parent hops) is not in this model (C15): its identity is '
+                 'checked by the oracle stream only',
                  'threads/locks are out of scope here (C09)'],
     'assumptions': ['C04_translated_*_eq_model: representation invariant Rep (distinct keys; strongly cached objects alive) — proved to hold in '
                     'every state a guarded history reaches (C04_translated_rep_reachable); where the model defers collection to its gc op '
@@ -70,17 +77,44 @@ META = {
     'exhaustive': False,
 }
 
-CLASSES = ('P', 'K', 'F')
+CLASSES = ('P', 'K', 'F', 'S')
 _envs = {}
 
 
-def env(do_cache):
-    """one connection + two classes per doCache setting, reused for every history"""
-    if do_cache in _envs:
-        return _envs[do_cache]
+_tmpdirs = []
+
+
+def _scratch_db():
+    """file-backed SQLite database for the worlds in which two connection objects must see one database"""
+    import atexit
+    import shutil
+    import tempfile
+    base = '/dev/shm' if os.path.isdir('/dev/shm') and os.access('/dev/shm', os.W_OK) else None
+    d = tempfile.mkdtemp(prefix='verif_c04_', dir=base)
+    _tmpdirs.append(d)
+    atexit.register(shutil.rmtree, d, True)
+    return os.path.join(d, 'c04.db')
+
+
+def env(do_cache, explicit=False):
+    """connection(s) + the row classes, per (doCache, explicit-connection) setting, reused for every history.
+    explicit: the classes are bound to connection A, every access passes `connection=B` (a second connection
+    object on the same database): the identity map under test is B's."""
+    key = (do_cache, bool(explicit))
+    if key in _envs:
+        return _envs[key]
     sqlo.setup()
     from sqlobject import SQLObject, StringCol, IntCol, ForeignKey, MultipleJoin, RelatedJoin, DatabaseIndex
-    conn = sqlo.mem_conn(cache=bool(do_cache))
+    if explicit:
+        path = _scratch_db()
+        conn = sqlo.file_conn(path, cache=bool(do_cache))
+        other = sqlo.file_conn(path, cache=bool(do_cache))
+        for c in (conn, other):
+            c.query('PRAGMA synchronous=OFF')
+    else:
+        conn = sqlo.mem_conn(cache=bool(do_cache))
+        other = conn
+    tag = '%d%d' % (do_cache, 1 if explicit else 0)
     pname = sqlo.uniq('C04P')
     kname = sqlo.uniq('C04K')
     P = type(pname, (SQLObject,), {
@@ -88,7 +122,7 @@ def env(do_cache):
         '__module__': __name__,
         'name': StringCol(alternateID=True),
         'kids': MultipleJoin(kname, joinColumn='p_id'),
-        'rel': RelatedJoin(kname, intermediateTable='c04_link_%d' % do_cache, joinColumn='p_id', otherColumn='k_id'),
+        'rel': RelatedJoin(kname, intermediateTable='c04_link_' + tag, joinColumn='p_id', otherColumn='k_id'),
     })
     K = type(kname, (SQLObject,), {
         '_connection': conn,
@@ -97,7 +131,7 @@ def env(do_cache):
         'code': IntCol(alternateID=True),
         'u': IntCol(),
         'uidx': DatabaseIndex('u', unique=True),
-        'rel': RelatedJoin(pname, intermediateTable='c04_link_%d' % do_cache, joinColumn='k_id', otherColumn='p_id'),
+        'rel': RelatedJoin(pname, intermediateTable='c04_link_' + tag, joinColumn='k_id', otherColumn='p_id'),
     })
     # a row class whose instances are falsy (container protocol with length 0): nothing in the cache may
     # confuse "the object is falsy" with "the weak reference is dead"
@@ -108,17 +142,42 @@ def env(do_cache):
         'name': StringCol(alternateID=True),
         '__len__': lambda self: 0,
     })
+    # a class with a string primary key (explicit ids only)
+    sname = sqlo.uniq('C04S')
+    S = type(sname, (SQLObject,), {
+        '_connection': conn,
+        '__module__': __name__,
+        'sqlmeta': type('sqlmeta', (), {'idType': str}),
+        'name': StringCol(alternateID=True),
+    })
     # pickle looks classes up by module attribute
-    globals()[pname] = P
-    globals()[kname] = K
-    globals()[fname] = F
-    P.createTable()
-    K.createTable()
-    F.createTable()
-    e = {'conn': conn, 'P': P, 'K': K, 'F': F, 'link': 'c04_link_%d' % do_cache,
-         'tables': {'P': P.sqlmeta.table, 'K': K.sqlmeta.table, 'F': F.sqlmeta.table}}
-    _envs[do_cache] = e
+    for n, c in ((pname, P), (kname, K), (fname, F), (sname, S)):
+        globals()[n] = c
+        c.createTable()
+    e = {'conn': conn, 'c': other, 'ckw': ({'connection': other} if explicit else {}), 'explicit': bool(explicit),
+         'P': P, 'K': K, 'F': F, 'S': S, 'link': 'c04_link_' + tag,
+         'tables': {'P': P.sqlmeta.table, 'K': K.sqlmeta.table, 'F': F.sqlmeta.table, 'S': S.sqlmeta.table}}
+    _envs[key] = e
     return e
+
+
+def id_num(i):
+    """ops carry ids as n (canonical form for the class) or '~n' (the other, non-canonical form: the text
+    'n' for an int key, the int n for a str key); the model sees n"""
+    return int(i[1:]) if isinstance(i, str) else i
+
+
+def id_arg(cls, i):
+    """the Python value passed to the real code for op id `i` of class `cls`"""
+    n = id_num(i)
+    canonical_is_str = (cls == 'S')
+    if isinstance(i, str):       # non-canonical form
+        return n if canonical_is_str else str(n)
+    return str(n) if canonical_is_str else n
+
+
+def id_sql(cls, n):
+    return "'%d'" % n if cls == 'S' else '%d' % n
 
 
 def fk_of(i):
@@ -138,14 +197,18 @@ class World(object):
         sqlo.setup()
         from sqlobject.cache import CacheSet
         self.cfg = cfg
-        do_cache, freq, frac = cfg
-        self.e = env(do_cache)
-        conn = self.e['conn']
+        do_cache, freq, frac = cfg[:3]
+        self.explicit = len(cfg) > 3 and bool(cfg[3])
+        self.e = env(do_cache, self.explicit)
+        conn = self.e['c']          # the connection whose identity map is under test
         self.conn = conn
+        self.ckw = self.e['ckw']
         for t in list(self.e['tables'].values()) + [self.e['link']]:
             conn.query('DELETE FROM %s' % t)
         conn.query('DELETE FROM sqlite_sequence')
         conn.cache = CacheSet(cache=bool(do_cache), cullFrequency=freq, cullFraction=frac)
+        if self.explicit:
+            self.e['conn'].cache = CacheSet(cache=bool(do_cache), cullFrequency=freq, cullFraction=frac)
         self.held = {}        # slot -> instance (the application's references)
         self.slot_by_obj = {}  # id(instance) -> slot, for held instances
         self.wr = {}          # slot -> weakref (every slot ever handed out)
@@ -153,22 +216,22 @@ class World(object):
         self.dead_reported = set()
         self.nslots = 0
         self.pickles = []     # (bytes, cls, id)
-        self.rows = {'P': set(), 'K': set(), 'F': set()}   # generator's shadow (NOT used by the oracle)
-        self.maxid = {'P': 0, 'K': 0, 'F': 0}
+        self.rows = {'P': set(), 'K': set(), 'F': set(), 'S': set()}   # generator's shadow (NOT used by the oracle)
+        self.maxid = {'P': 0, 'K': 0, 'F': 0, 'S': 0}
         self.current = {}     # oracle: (cls, id) -> slot of the instance the application holds for that row
         self.fails = []       # oracle failures: (kind, text)
         self.lines = []       # model request lines
         self.outs = []        # implementation answers, aligned with lines
         self.kinds = []       # op kind per line
         self.flags = set()    # coverage facts: 'hit-held', 'gc', ...
-        self.lines.append('reset %d %d %d' % cfg)
+        self.lines.append('reset %d %d %d' % tuple(cfg[:3]))
         self.outs.append('ok')
         self.kinds.append('reset')
 
     # ---------------------------------------------------------------- helpers
     def row_exists(self, cls, i):
         """independent of sqlobject's object layer: raw SELECT"""
-        r = self.conn.queryOne('SELECT id FROM %s WHERE id = %d' % (self.e['tables'][cls], i))
+        r = self.conn.queryOne('SELECT id FROM %s WHERE id = %s' % (self.e['tables'][cls], id_sql(cls, i)))
         return r is not None
 
     def resolve(self, cls, i, j):
@@ -183,8 +246,15 @@ class World(object):
 
     def take(self, obj, cls, path):
         """the application receives `obj` from an access path: oracle + slot bookkeeping; returns the slot"""
-        i = obj.id
+        want_type = str if cls == 'S' else int
+        if type(obj.id) is not want_type:
+            self.fail('idtype', '%s returned a %s instance whose id is %r, not a %s'
+                      % (path, cls, obj.id, want_type.__name__))
+        i = int(obj.id)
         key = (cls, i)
+        if self.explicit and obj._connection is not self.conn:
+            self.fail('wrongconn', '%s on an explicit connection returned a %s instance bound to another connection'
+                      % (path, cls))
         exists = self.row_exists(cls, i)
         if not exists or obj.sqlmeta._obsolete:
             self.fail('deleted', '%s handed out %s id %d although the row %s'
@@ -232,32 +302,43 @@ class World(object):
         e = self.e
         if kind == 'create':
             _, cls, i = op
-            rid = i if i is not None else self.maxid[cls] + 1
+            if i is None and cls == 'S':
+                return False        # a string key has no automatic ids
+            rid = id_num(i) if i is not None else self.maxid[cls] + 1
+            line = 'create %s %s' % (cls, '-' if i is None else rid)
             try:
-                kw = {} if i is None else {'id': i}
-                if cls in ('P', 'F'):
+                kw = dict(self.ckw)
+                if i is not None:
+                    kw['id'] = id_arg(cls, i)
+                if cls in ('P', 'F', 'S'):
                     obj = e[cls](name='p%d' % rid, **kw)
                 else:
                     obj = e['K'](code=100 + rid, u=200 + rid, p=fk_of(rid), **kw)
             except Exception as ex:
-                self.emit(kind, 'create %s %s' % (cls, '-' if i is None else i), 'err ' + sqlo.exc_name(ex))
+                self.emit(kind, line, 'err ' + sqlo.exc_name(ex))
                 return True
-            if cls == 'K' and link_of(obj.id) is not None:
-                self.conn.query('INSERT INTO %s (k_id, p_id) VALUES (%d, %d)' % (e['link'], obj.id, link_of(obj.id)))
-            self.rows[cls].add(obj.id)
-            self.maxid[cls] = max(self.maxid[cls], obj.id)
+            try:
+                oid = int(obj.id)
+            except Exception:
+                oid = -1
+            if cls == 'K' and link_of(oid) is not None:
+                self.conn.query('INSERT INTO %s (k_id, p_id) VALUES (%d, %d)' % (e['link'], oid, link_of(oid)))
+            self.rows[cls].add(oid)
+            self.maxid[cls] = max(self.maxid[cls], oid)
             # a new row: whatever the application still holds for that id belongs to a destroyed row
             s = self.take(obj, cls, 'create')
-            self.emit(kind, 'create %s %s' % (cls, '-' if i is None else i), 'obj %d' % s)
-            if obj.id != rid:
-                self.emit('idcheck', 'noop', 'id %d expected %d' % (obj.id, rid))
+            self.emit(kind, line, 'obj %d' % s)
+            if oid != rid:
+                self.emit('idcheck', 'noop', 'id %d expected %d' % (oid, rid))
             return True
         if kind == 'get':
             _, cls, i = op
+            arg = id_arg(cls, i)
+            i = id_num(i)
             line = 'get %s %d' % (cls, i)
             exists = self.row_exists(cls, i)
             try:
-                obj = e[cls].get(i)
+                obj = e[cls].get(arg, **self.ckw)
             except SQLObjectNotFound:
                 if exists:
                     self.fail('notfound', 'get raised SQLObjectNotFound for the existing row %s id %d' % (cls, i))
@@ -271,13 +352,19 @@ class World(object):
             return True
         if kind == 'select':
             _, cls, ids = op
+            if cls == 'S':
+                ids = tuple(sorted(ids, key=str))
             line = 'select %s %s' % (cls, ','.join(map(str, ids)) if ids else '-')
             try:
                 if ids:
-                    res = list(e[cls].select(IN(e[cls].q.id, list(ids)), orderBy='id'))
+                    res = list(e[cls].select(IN(e[cls].q.id, [id_arg(cls, x) for x in ids]), orderBy='id',
+                                             **self.ckw))
                 else:
-                    res = list(e[cls].select(orderBy='id'))
-                    line = 'select %s %s' % (cls, ','.join(map(str, range(1, self.maxid[cls] + 1))) or '-')
+                    res = list(e[cls].select(orderBy='id', **self.ckw))
+                    allids = list(range(1, self.maxid[cls] + 1))
+                    if cls == 'S':
+                        allids.sort(key=str)
+                    line = 'select %s %s' % (cls, ','.join(map(str, allids)) or '-')
             except Exception as ex:
                 self.emit(kind, line, 'err ' + sqlo.exc_name(ex))
                 return True
@@ -291,11 +378,11 @@ class World(object):
             line = 'look %s %d' % (cls, i)
             try:
                 if kind == 'uidx':
-                    obj = e['K'].uidx.get(u=200 + i)
-                elif cls in ('P', 'F'):
-                    obj = e[cls].byName('p%d' % i)
+                    obj = e['K'].uidx.get(u=200 + i, **self.ckw)
+                elif cls in ('P', 'F', 'S'):
+                    obj = e[cls].byName('p%d' % i, **self.ckw)
                 else:
-                    obj = e['K'].byCode(100 + i)
+                    obj = e['K'].byCode(100 + i, **self.ckw)
             except SQLObjectNotFound:
                 if exists:
                     self.fail('notfound', '%s lookup raised SQLObjectNotFound for the existing row %s id %d' % (kind, cls, i))
@@ -304,11 +391,13 @@ class World(object):
             except Exception as ex:
                 self.emit(kind, line, 'err ' + sqlo.exc_name(ex))
                 return True
-            if obj.id != i:
-                self.fail('wrongrow', '%s lookup for id %d returned id %d' % (kind, i, obj.id))
+            if str(obj.id) != str(i):
+                self.fail('wrongrow', '%s lookup for id %d returned id %r' % (kind, i, obj.id))
             s = self.take(obj, cls, kind)
             self.emit(kind, line, 'obj %d' % s)
             return True
+        if kind in ('pickle', 'unpickle') and self.explicit:
+            return False        # an instance with a per-instance connection refuses to be pickled
         if kind == 'unpickle':
             _, cls, i, j = op
             ps = [n for n, (d, c, r) in enumerate(self.pickles) if (c, r) == (cls, i)]
@@ -466,10 +555,10 @@ def execute(cfg, history, stop_at_first=True):
 
 
 # -------------------------------------------------------------------- shrinking and keys
-def shrink(cfg, history, budget=400):
+def shrink(cfg, history, budget=400, runner=None, simplify=True):
     """drop ops / replace ops by simpler ones while the oracle still fails; returns the minimal failing history"""
     def failing(h):
-        w = execute(cfg, h)
+        w = (runner or execute)(cfg, h)
         return bool(w.fails), w
     ok, w = failing(history)
     if not ok:
@@ -510,7 +599,7 @@ def shrink(cfg, history, budget=400):
                         changed = True
                         done = True
         # 2. replace by simpler ops
-        for i, op in enumerate(list(cur)):
+        for i, op in enumerate(list(cur) if simplify else []):
             if runs >= budget:
                 break
             simpler = []
@@ -525,6 +614,8 @@ def shrink(cfg, history, budget=400):
                         simpler.append(('expire', cls, rid, 0))
             if k in ('unpickle', 'expire', 'destroy', 'pickle', 'drop') and op[3] > 0:
                 simpler.append(op[:3] + (0,))
+            if k in ('create', 'get') and isinstance(op[2], str):
+                simpler.append((k, op[1], id_num(op[2])))
             if k == 'create' and op[2] is not None:
                 simpler.append(('create', op[1], None))
             if k == 'create' and op[1] == 'K':
@@ -551,8 +642,14 @@ def minimise(cfg, history):
     small, w = shrink(cfg, history)
     if small is None:
         return None, None, None
+    if len(cfg) > 3 and cfg[3]:
+        # does it need the explicit connection at all?
+        if execute(tuple(cfg[:3]), small).fails:
+            return minimise(tuple(cfg[:3]), small)
+    extra = tuple(cfg[3:])
     for c2, tag in CANON_CFGS:
-        if c2 == cfg:
+        c2 = c2 + extra
+        if c2 == tuple(cfg):
             break
         cands = [small]
         if len(small) <= 10:
@@ -571,19 +668,218 @@ def key_of(cfg, history, w):
     """canonical key of a minimised failing history: its op-kind sequence (leading creates dropped)
     plus the canonical configuration it needs"""
     kinds = [op[0] for op in history]
-    while kinds and kinds[0] == 'create':
+    while len(kinds) > 1 and kinds[0] == 'create':
         kinds.pop(0)
-    tag = dict(CANON_CFGS).get(cfg, '@%d,%d,%d' % cfg)
+    base = tuple(cfg[:3])
+    tag = dict(CANON_CFGS).get(base, '@%d,%d,%d' % base)
+    if len(cfg) > 3 and cfg[3]:
+        tag += '@conn'
+    if any(isinstance(op[2], str) for op in history if op[0] in ('create', 'get') and len(op) > 2):
+        tag += '@idform'
     return 'C04:' + '-then-'.join(kinds) + tag
 
 
 def describe(cfg, history):
-    return {'cfg': {'doCache': cfg[0], 'cullFrequency': cfg[1], 'cullFraction': cfg[2]},
+    return {'cfg': {'doCache': cfg[0], 'cullFrequency': cfg[1], 'cullFraction': cfg[2],
+                    'explicitConnection': bool(len(cfg) > 3 and cfg[3])},
             'history': [list(op) for op in history]}
 
 
+# -------------------------------------------------------------------- inheritance (oracle only)
+_inh_envs = {}
+
+
+def inh_env(do_cache, explicit):
+    """an inheritable family: V (root), Car (leaf child without columns of its own), Truck (child with a
+    column), and G with a ForeignKey to V.  explicit: every access passes connection=B."""
+    key = (do_cache, bool(explicit))
+    if key in _inh_envs:
+        return _inh_envs[key]
+    sqlo.setup()
+    from sqlobject import SQLObject, StringCol, IntCol, ForeignKey
+    from sqlobject.inheritance import InheritableSQLObject
+    if explicit:
+        path = _scratch_db()
+        conn = sqlo.file_conn(path, cache=bool(do_cache))
+        other = sqlo.file_conn(path, cache=bool(do_cache))
+        for c in (conn, other):
+            c.query('PRAGMA synchronous=OFF')
+    else:
+        conn = sqlo.mem_conn(cache=bool(do_cache))
+        other = conn
+    vname, cname, tname, gname = (sqlo.uniq('C04V'), sqlo.uniq('C04Car'), sqlo.uniq('C04Truck'), sqlo.uniq('C04G'))
+    V = type(vname, (InheritableSQLObject,), {'_connection': conn, '__module__': __name__, 'name': StringCol()})
+    Car = type(cname, (V,), {'_inheritable': False, '__module__': __name__})
+    Truck = type(tname, (V,), {'__module__': __name__, 'load': IntCol(default=0)})
+    G = type(gname, (SQLObject,), {'_connection': conn, '__module__': __name__, 'v': ForeignKey(vname)})
+    for c in (V, Car, Truck, G):
+        c.createTable()
+    e = {'conn': conn, 'c': other, 'ckw': ({'connection': other} if explicit else {}),
+         'V': V, 'Car': Car, 'Truck': Truck, 'G': G, 'classes': (V, Car, Truck, G)}
+    _inh_envs[key] = e
+    return e
+
+
+class InhWorld(object):
+    """identity across an inheritable family: a row reached through the root class (by id, by select, by a
+    foreign key) and through its own class is one object, bound to the connection that was asked.
+    ops: ('new', 'Car'|'Truck') ('vget', n) ('cget', n) ('vsel',) ('csel', 'Car'|'Truck') ('fk', n) ('drop', n)
+    n = the n-th row created in this history."""
+
+    def __init__(self, cfg):
+        from sqlobject.cache import CacheSet
+        do_cache, freq, frac = cfg[:3]
+        self.explicit = len(cfg) > 3 and bool(cfg[3])
+        self.e = e = inh_env(do_cache, self.explicit)
+        self.conn = e['c']
+        for c in e['classes']:
+            self.conn.query('DELETE FROM %s' % c.sqlmeta.table)
+        for c in set((e['conn'], e['c'])):
+            c.cache = CacheSet(cache=bool(do_cache), cullFrequency=freq, cullFraction=frac)
+        self.rows = []        # (class name, id) in creation order
+        self.garages = {}     # row index -> G id
+        self.held = {}        # row id -> the instance the application holds
+        self.fails = []
+        self.lines, self.outs = [], []
+
+    def take(self, obj, path):
+        rid = obj.id
+        kinds = dict((i, c) for c, i in self.rows)
+        if type(obj).__name__ != self.e[kinds.get(rid, 'V')].__name__:
+            self.fails.append(('inh-class', '%s returned a %s for a %s row' % (path, type(obj).__name__, kinds.get(rid))))
+        if self.explicit and obj._connection is not self.conn:
+            self.fails.append(('inh-wrongconn', '%s on an explicit connection returned an instance bound to another '
+                               'connection' % path))
+        cur = self.held.get(rid)
+        if cur is not None and cur is not obj:
+            self.fails.append(('inh-identity', '%s returned a second live instance of %s id %d while the application '
+                               'still holds the first' % (path, kinds.get(rid), rid)))
+        self.held[rid] = obj
+
+    def step(self, op):
+        e, kw = self.e, self.e['ckw']
+        n0 = len(self.fails)
+        kind = op[0]
+        try:
+            if kind == 'new':
+                obj = e[op[1]](name='v%d' % len(self.rows), **kw)
+                self.rows.append((op[1], obj.id))
+                self.take(obj, 'the constructor')
+            else:
+                if kind != 'vsel' and kind != 'csel':
+                    if op[1] >= len(self.rows):
+                        return False, False
+                    cname, rid = self.rows[op[1]]
+                if kind == 'vget':
+                    self.take(e['V'].get(rid, **kw), 'get through the root class')
+                elif kind == 'cget':
+                    self.take(e[cname].get(rid, **kw), 'get through the row\'s own class')
+                elif kind == 'vsel':
+                    for o in list(e['V'].select(orderBy='id', **kw)):
+                        self.take(o, 'select on the root class')
+                elif kind == 'csel':
+                    for o in list(e[op[1]].select(orderBy='id', **kw)):
+                        self.take(o, 'select on the child class')
+                elif kind == 'fk':
+                    if op[1] not in self.garages:
+                        self.garages[op[1]] = e['G'](v=rid, **kw).id
+                    g = e['G'].get(self.garages[op[1]], **kw)
+                    self.take(g.v, 'foreign key to the root class')
+                    del g
+                elif kind == 'drop':
+                    self.held.pop(rid, None)
+                else:
+                    raise ValueError(op)
+        except Exception as ex:
+            self.fails.append(('inh-error', '%s raised %s' % (' '.join(map(str, op)), sqlo.exc_name(ex))))
+        self.lines.append(' '.join(map(str, op)))
+        self.outs.append('ok')
+        return True, len(self.fails) > n0
+
+    def close(self):
+        self.held.clear()
+
+
+def execute_inh(cfg, history, stop_at_first=True):
+    w = InhWorld(cfg)
+    applied = []
+    for op in history:
+        ok, failed = w.step(op)
+        if ok:
+            applied.append(op)
+        if failed and stop_at_first:
+            break
+    w.applied = applied
+    w.close()
+    return w
+
+
+def gen_inh(rng, n_ops):
+    hist = []
+    nrows = 0
+    for _ in range(n_ops):
+        r = rng.random()
+        if nrows == 0 or r < 0.2:
+            hist.append(('new', 'Car' if rng.random() < 0.6 else 'Truck'))
+            nrows += 1
+        elif r < 0.4:
+            hist.append(('vget', rng.randrange(nrows)))
+        elif r < 0.55:
+            hist.append(('cget', rng.randrange(nrows)))
+        elif r < 0.65:
+            hist.append(('vsel',))
+        elif r < 0.72:
+            hist.append(('csel', 'Car' if rng.random() < 0.5 else 'Truck'))
+        elif r < 0.85:
+            hist.append(('fk', rng.randrange(nrows)))
+        else:
+            hist.append(('drop', rng.randrange(nrows)))
+    return hist
+
+
+def report_inh(ctx, cfg, hist, reported):
+    small, w = shrink(cfg, hist, runner=execute_inh, simplify=False)
+    if small is None:
+        small, w = hist, execute_inh(cfg, hist)
+    if len(cfg) > 3 and cfg[3] and execute_inh(tuple(cfg[:3]), small).fails:
+        cfg = tuple(cfg[:3])
+        small, w = shrink(cfg, small, runner=execute_inh, simplify=False)
+    for c2, _tag in CANON_CFGS:
+        c2 = c2 + tuple(cfg[3:])
+        if c2 == tuple(cfg):
+            break
+        if execute_inh(c2, small).fails:
+            cfg = c2
+            small, w = shrink(cfg, small, runner=execute_inh, simplify=False)
+            break
+    kinds = [op[0] for op in small]
+    while len(kinds) > 1 and kinds[0] == 'new':
+        kinds.pop(0)
+    key = 'C04:inheritance:' + '-then-'.join(kinds) + ('@conn' if len(cfg) > 3 and cfg[3] else '') + \
+        ('@nocache' if not cfg[0] else '')
+    if key in reported or not w.fails:
+        return
+    reported.add(key)
+    d = describe(cfg, small)
+    d['inheritance'] = True
+    ctx.oracle_fail(key, '%s (inheritable family V/Car/Truck, cache=%s, explicit connection=%s, minimal history %s)'
+                    % (w.fails[0][1], bool(cfg[0]), bool(len(cfg) > 3 and cfg[3]),
+                       ' ; '.join(' '.join(map(str, op)) for op in small)), d)
+
+
+def replay_inh(case):
+    cfg = (case['cfg']['doCache'], case['cfg']['cullFrequency'], case['cfg']['cullFraction'])
+    if case['cfg'].get('explicitConnection'):
+        cfg = cfg + (1,)
+    hist = [tuple(op) for op in case['history']]
+    w = execute_inh(cfg, hist, stop_at_first=False)
+    text = ['cfg %r (inheritance stream)' % (cfg,)] + ['  ' + l for l in w.lines]
+    text += ['ORACLE FAILURE [%s]: %s' % f for f in w.fails] or ['oracle: no failure']
+    return (not w.fails), '\n'.join(text)
+
+
 # -------------------------------------------------------------------- generation
-def gen_history(rng, cfg, n_ops, guarded, sink, falsy=False):
+def gen_history(rng, cfg, n_ops, guarded, sink, falsy=False, idforms=False):
     """generate while executing on the real code (choices look at the generator's shadow state only).
     guarded: never detach a held instance, never unpickle a deleted row, one successful unpickle per row."""
     w = World(cfg)
@@ -613,7 +909,15 @@ def gen_history(rng, cfg, n_ops, guarded, sink, falsy=False):
         cls = 'P' if rng.random() < 0.45 else 'K'
         if falsy:
             cls = 'F' if rng.random() < 0.75 else 'P'
+        if idforms and rng.random() < 0.4:
+            cls = 'S'
         rows = sorted(w.rows[cls])
+
+        def form(n):
+            # the id as the application may pass it: canonical, or the other of int / numeric text
+            if idforms and rng.random() < 0.4:
+                return '~%d' % n
+            return n
 
         def some_id():
             q = rng.random()
@@ -622,12 +926,12 @@ def gen_history(rng, cfg, n_ops, guarded, sink, falsy=False):
             return rng.choice(ids)
         if r < 0.13:
             q = rng.random()
-            if q < 0.45:
+            if q < 0.45 and cls != 'S':
                 do(('create', cls, None))
             else:
-                do(('create', cls, rng.choice(ids)))
+                do(('create', cls, form(rng.choice(ids))))
         elif r < 0.36:
-            do(('get', cls, some_id()))
+            do(('get', cls, form(some_id())))
         elif r < 0.44:
             if rng.random() < 0.4:
                 do(('select', cls, ()))
@@ -755,11 +1059,15 @@ def run(ctx):
     n_guard = ctx.budget(4000, 60000)
     n_free = ctx.budget(300, 4000)
     n_falsy = ctx.budget(500, 6000)
+    n_idf = ctx.budget(600, 8000)
+    n_conn = ctx.budget(500, 6000)
     max_ops = 60 if (ctx.tier == 'thorough' or ctx.deep) else 28
     sink = []
-    for k in range(n_guard + n_free + n_falsy):
+    for k in range(n_guard + n_free + n_falsy + n_idf + n_conn):
         guarded = k < n_guard or k >= n_guard + n_free
-        falsy = k >= n_guard + n_free
+        falsy = n_guard + n_free <= k < n_guard + n_free + n_falsy
+        idforms = n_guard + n_free + n_falsy <= k < n_guard + n_free + n_falsy + n_idf
+        xconn = k >= n_guard + n_free + n_falsy + n_idf
         cfg = CONFIGS[ctx.rng.randrange(len(CONFIGS))]
         if falsy:
             cfg = (1, ctx.rng.randrange(0, 3), ctx.rng.randrange(1, 3))
@@ -767,11 +1075,26 @@ def run(ctx):
             cfg = (ctx.rng.randrange(2), ctx.rng.randrange(0, 7), ctx.rng.randrange(1, 5))
         n_ops = ctx.rng.randint(4, max_ops)
         del sink[:]
-        w = gen_history(ctx.rng, cfg, n_ops, guarded, sink, falsy=falsy)
+        if xconn:
+            cfg = tuple(cfg) + (1,)
+        w = gen_history(ctx.rng, cfg, n_ops, guarded, sink, falsy=falsy, idforms=idforms or (xconn and k % 3 == 0))
         cfg, hist, w = sink[0]
-        worlds.append((cfg, hist, w, 'falsy-instances' if falsy else 'guarded' if guarded else 'free'))
+        worlds.append((cfg, hist, w, 'falsy-instances' if falsy else 'id-forms' if idforms else
+                       'explicit-connection' if xconn else 'guarded' if guarded else 'free'))
         if w.fails:
             report_failure(ctx, cfg, hist, w, reported)
+    # 2b. inheritance x {default, explicit} connection: oracle only (the inheritance layer is C15's model)
+    n_inh = ctx.budget(400, 6000)
+    for k in range(n_inh):
+        cfg = CONFIGS[ctx.rng.randrange(len(CONFIGS))]
+        if k % 2:
+            cfg = tuple(cfg) + (1,)
+        hist = gen_inh(ctx.rng, ctx.rng.randint(3, 14))
+        w = execute_inh(cfg, hist)
+        ctx.case(('inh', cfg, tuple(hist)), nontrivial=len(w.applied) > 2,
+                 kind='inheritance%s cache=%d' % (' explicit-connection' if len(cfg) > 3 else '', cfg[0]))
+        if w.fails:
+            report_inh(ctx, cfg, hist, reported)
     # 3. correspondence: all histories through the model driver in one call
     lines = []
     for cfg, hist, w, stream in worlds:
@@ -806,6 +1129,10 @@ def run(ctx):
 
 def replay(case):
     cfg = (case['cfg']['doCache'], case['cfg']['cullFrequency'], case['cfg']['cullFraction'])
+    if case['cfg'].get('explicitConnection'):
+        cfg = cfg + (1,)
+    if case.get('inheritance'):
+        return replay_inh(case)
     hist = [tuple(tuple(x) if isinstance(x, list) else x for x in op) for op in case['history']]
     w = execute(cfg, hist, stop_at_first=False)
     text = ['cfg %r' % (cfg,)]
